@@ -69,6 +69,19 @@ func (w WrongSpec) resolve(right []byte) ([]byte, bool) {
 		out = append(cp(right), w.Byte)
 	case "empty":
 		out = []byte{}
+	case "space":
+		switch w.Idx {
+		case 0:
+			out = append(cp(right), '\n')
+		case 1:
+			out = append([]byte(" "), right...)
+		case 2:
+			out = append(cp(right), ' ', '\t')
+		case 3:
+			out = append(append([]byte("\t"), right...), '\r', '\n')
+		default:
+			out = bytes.TrimSpace(cp(right))
+		}
 	default:
 		return nil, false
 	}
@@ -120,7 +133,12 @@ func genPass(t *rapid.T, label string, minLen int) PassSpec {
 }
 
 func genWrong(t *rapid.T) WrongSpec {
-	w := WrongSpec{Kind: rapid.SampledFrom([]string{"random", "flip", "flip", "flip", "shorter", "longer", "empty"}).Draw(t, "wrong-kind")}
+	w := WrongSpec{Kind: rapid.SampledFrom([]string{"random", "flip", "flip", "flip", "shorter", "longer", "empty", "space", "space"}).Draw(t, "wrong-kind")}
+	if w.Kind == "space" {
+		// differs from the right pass-phrase only by surrounding white space (or, when the right one has
+		// such white space, by its absence)
+		w.Idx = rapid.IntRange(0, 5).Draw(t, "wrong-space")
+	}
 	switch w.Kind {
 	case "random":
 		w.Bytes = rapid.SliceOfN(rapid.Byte(), 0, 40).Draw(t, "wrong-bytes")
